@@ -213,33 +213,53 @@ def random_prog(rng):
 # running the real code
 
 class Listener(plumpy.ProcessListener):
-    def __init__(self):
+    """records notifications; with a plan {(notification, occurrence): op} it issues a control request from inside the
+    notification (i.e. during the transition that sends it)"""
+
+    def __init__(self, run=None, plan=None):
         super().__init__()
         self.ev = []
         self.outputs = None
+        self.run = run
+        self.plan = plan or {}
+        self.counts = {}
 
-    def on_process_running(self, p): self.ev.append('run')
-    def on_process_waiting(self, p): self.ev.append('wai')
-    def on_process_paused(self, p): self.ev.append('pau')
-    def on_process_played(self, p): self.ev.append('pla')
-    def on_process_finished(self, p, o): self.ev.append('fin'); self.outputs = o
-    def on_process_excepted(self, p, r): self.ev.append('exc')
-    def on_process_killed(self, p, m): self.ev.append('kil')
+    def _hit(self, name):
+        self.ev.append(name)
+        n = self.counts[name] = self.counts.get(name, 0) + 1
+        op = self.plan.get((name, n))
+        if op is not None and self.run is not None:
+            self.run.do(op, from_listener=True)
+
+    def on_process_running(self, p): self._hit('run')
+    def on_process_waiting(self, p): self._hit('wai')
+    def on_process_paused(self, p): self._hit('pau')
+    def on_process_played(self, p): self._hit('pla')
+    def on_process_finished(self, p, o): self.outputs = o; self._hit('fin')
+    def on_process_excepted(self, p, r): self._hit('exc')
+    def on_process_killed(self, p, m): self._hit('kil')
 
 
 class Run:
     """One real process under the deterministic loop. `do(op)` performs an environment op, `tick()` runs one callback;
     both append to .ops / .obs (the lines exchanged with the model) and to the raw records the monitors read."""
 
-    def __init__(self, prog, status0=None):
+    def __init__(self, prog, status0=None, plan=None):
         logging.disable(logging.CRITICAL)
         self.prog = prog
         self.status0 = status0
         self.loop = detloop.DetLoop()
         asyncio.set_event_loop(self.loop)
         self.loop_errs = []
-        self.loop.set_exception_handler(
-            lambda l, c: self.loop_errs.append(excname(c['exception']) if c.get('exception') else str(c.get('message'))))
+        def on_loop_error(_loop, context):
+            # an unretrieved exception on an abandoned future (reported by the garbage collector) is not an exception
+            # escaping from a callback or task into the loop
+            if 'never retrieved' in str(context.get('message', '')) and 'future' in context and 'task' not in context:
+                self.gc_notes.append(excname(context['exception']) if context.get('exception') else '?')
+                return
+            self.loop_errs.append(excname(context['exception']) if context.get('exception') else str(context.get('message')))
+        self.gc_notes = []
+        self.loop.set_exception_handler(on_loop_error)
         cls = build_class(prog)
         self.p = p = cls(loop=self.loop)
         p._trace = []
@@ -248,7 +268,7 @@ class Run:
             p.set_status(status0)
         self.entered = [p.state.value]
         p.add_state_event_callback(StateEventHook.ENTERED_STATE, lambda sm, h, st: self.entered.append(sm.state.value))
-        self.lis = Listener()
+        self.lis = Listener(self, plan)
         p.add_process_listener(self.lis)
         self.cleanups = []
         p.add_cleanup(lambda: self.cleanups.append(1))
@@ -261,6 +281,7 @@ class Run:
         self.fail_exc = UserExc(9)
         self.resumes = []         # (value, phase, idx) for resume() calls that did not raise
         self.paused_at = []       # per op index: paused flag after the op
+        self.listener_ops = []    # (op index at that time, op, ret) for requests issued from listener notifications
         self.cb_handles = []      # (ProcessCallback, 'ok'|'raise') scheduled through call_soon
         self.cb_runs = []
         self.status_at = []
@@ -313,7 +334,7 @@ class Run:
         self.snapshots.append((p.state.value, self.outcome(), fs) if p.has_terminated() else None)
 
     # -- environment ops --------------------------------------------------------------------------------------
-    def do(self, op):
+    def do(self, op, from_listener=False):
         p = self.p
         toks = op.split()
         ph, live = self.phase(), not p.has_terminated()
@@ -364,7 +385,14 @@ class Run:
         else:
             ret = {True: 'T', False: 'F', None: 'none'}.get(r, 'other')
         idx = len(self.ops)
-        self.calls.append(dict(op=toks[0], arg=toks[1:], phase=ph, ret=ret, raised=raised, live=live, idx=idx, obj=r))
+        self.calls.append(dict(op=toks[0], arg=toks[1:], phase=ph, ret=ret, raised=raised, live=live, idx=idx, obj=r,
+                               from_listener=from_listener))
+        if from_listener:
+            # issued from inside a notification: logged for the monitors, not an op of the line protocol
+            if toks[0] == 'kill' and live:
+                self.kill_results.append(('raised' if raised else r, 'km%d' % idx, idx))
+            self.listener_ops.append((idx, op, ret))
+            return
         if toks[0] == 'kill' and live:
             self.kill_results.append(('raised' if raised else r, 'km%d' % idx, idx))
         if toks[0] == 'resume' and not raised:
@@ -454,8 +482,8 @@ def n_positions(prog):
     return n + 2
 
 
-def run_schedule(prog, schedule, max_cb=60, status0=None):
-    r = Run(prog, status0=status0)
+def run_schedule(prog, schedule, max_cb=60, status0=None, plan=None):
+    r = Run(prog, status0=status0, plan=plan)
     last = max(schedule.keys(), default=-1)
     n = 0
     while n < max_cb:
@@ -507,14 +535,15 @@ def ops_for(prog, alphabet):
 
 
 def _work(args):
-    prog, sched, monitors = args
+    prog, sched, monitors = args[:3]
+    plan = args[3] if len(args) > 3 else None
     import harness.pm_monitors  # noqa: F401  (registers the monitors)
-    r = run_schedule(prog, sched, status0='s0')
+    r = run_schedule(prog, sched, status0='s0', plan=plan)
     fails = []
     for m in monitors:
         fails.extend(MONITORS[m](r))
-    rec = dict(ops=r.ops, obs=r.obs, failures=fails,
-               phases=[(c['op'], c['phase']) for c in r.calls])
+    rec = dict(ops=r.ops, obs=r.obs, failures=fails, listener_ops=list(r.listener_ops),
+               phases=[(c['op'] + ('@listener' if c.get('from_listener') else ''), c['phase']) for c in r.calls])
     r.close()
     return rec
 
@@ -601,3 +630,23 @@ def fix_case(case):
     prog = dict(kind=prog['kind'], nfut=prog.get('nfut', 0), fns=fns, **({'via': prog['via']} if prog.get('via') else {}))
     sched = collections.OrderedDict((int(k), v) for k, v in sorted(case['schedule'].items(), key=lambda kv: int(kv[0])))
     return prog, sched
+
+
+def explore_listeners(ctx, cases, monitors):
+    """impl-only stream: control requests issued from inside listener notifications (during transitions).
+    cases: (name, prog, schedule, plan). The process-control model has no listener oracle, so there is no correspondence
+    here; the Python monitors decide."""
+    import multiprocessing as mp
+    work = [(prog, sched, monitors, plan) for _, prog, sched, plan in cases]
+    with mp.Pool(ctx.workers) as pool:
+        recs = pool.map(_work, work, chunksize=64)
+    failures = []
+    issued = 0
+    for (name, prog, sched, plan), rec in zip(cases, recs):
+        issued += len(rec['listener_ops'])
+        for f in rec['failures']:
+            f = dict(f)
+            f['case'] = dict(program=name, prog=prog, schedule={str(k): v for k, v in sched.items()},
+                             listener_plan=[[k[0], k[1], v] for k, v in plan.items()], ops=rec['ops'])
+            failures.append(f)
+    return dict(evaluations=len(cases), failures=failures, listener_requests_issued=issued)
